@@ -452,7 +452,7 @@ func init() {
 		vfXModels[name] = &vfXModel{Name: name, NumOps: len(a), OpName: func(i int) string { return a[i].String() },
 			Exec: vfP2PExec(a), MaxDepth: func(th bool) int {
 				if th {
-					return 4
+					return 6
 				}
 				return 4
 			}}
